@@ -6,6 +6,7 @@ import (
 	"fmt"
 	"go/constant"
 	"go/token"
+	"go/types"
 	"strings"
 
 	"golang.org/x/tools/go/ssa"
@@ -279,75 +280,170 @@ func (m *Model) RunPathAPI(s *Sink, rule string) {
 		}
 	}
 	// the configured directory is the caller's spelling, normalised only by removing slashes at its ends (or by a path
-	// cleaner): every store into the configuration's TemplateDir holds the given directory passed through such calls only
+	// cleaner): whatever is stored into a configuration's TemplateDir is the given directory passed through such calls only
+	var dirValue func(v ssa.Value, d int) string // "" = fine, else what is wrong
+	dirValue = func(v ssa.Value, d int) string {
+		if d > 8 {
+			return "is computed in too many steps to follow"
+		}
+		switch x := v.(type) {
+		case *ssa.Const:
+			return "" // a default
+		case *ssa.Parameter:
+			rs := m.resolveUp(x, nil, 0)
+			if len(rs) == 1 && rs[0] == v {
+				return "" // the value handed in (a normaliser's own argument, or the option itself)
+			}
+			for _, r := range rs {
+				if w := dirValue(r, d+1); w != "" {
+					return w
+				}
+			}
+			return ""
+		case *ssa.Phi:
+			for _, e := range x.Edges {
+				if w := dirValue(e, d+1); w != "" {
+					return w
+				}
+			}
+			return ""
+		case *ssa.UnOp:
+			if strings.HasSuffix(fieldPathOf(v), ".TemplateDir") {
+				return "" // the caller's option (or the value already configured)
+			}
+			if al, ok := x.X.(*ssa.Alloc); ok {
+				for _, r := range *al.Referrers() {
+					if st, isSt := r.(*ssa.Store); isSt && st.Addr == ssa.Value(al) {
+						if w := dirValue(st.Val, d+1); w != "" {
+							return w
+						}
+					}
+				}
+				return ""
+			}
+		case *ssa.Call:
+			sc := x.Call.StaticCallee()
+			if sc == nil || len(x.Call.Args) == 0 {
+				// a normaliser handed in as a function value: every function it can be
+				if p, isP := x.Call.Value.(*ssa.Parameter); isP && len(x.Call.Args) == 1 {
+					for _, fv := range m.resolveUp(p, nil, 0) {
+						f, _ := fv.(*ssa.Function)
+						if f == nil || f.Blocks == nil {
+							return "is passed through a function value that cannot be resolved"
+						}
+						for _, r := range m.returnedAt(f, 0) {
+							if w := dirValue(r, d+1); w != "" {
+								return w
+							}
+						}
+					}
+					return dirValue(x.Call.Args[0], d+1)
+				}
+				return "is computed by " + valueDesc(v)
+			}
+			name := fnFullName(sc)
+			switch name {
+			case "strings.Trim", "strings.TrimRight", "strings.TrimLeft", "strings.TrimSuffix", "strings.TrimPrefix":
+				k, isK := x.Call.Args[1].(*ssa.Const)
+				cut := ""
+				if isK && k.Value != nil && k.Value.Kind() == constant.String {
+					cut = constant.StringVal(k.Value)
+				}
+				if !isK || cut == "" || strings.Trim(cut, "/") != "" {
+					return fmt.Sprintf("is passed through %s with %s: only slashes may be removed (a cutset is a set of characters: \"./\" also eats the dots of \"../x\" and \".hidden\")", name, valueDesc(x.Call.Args[1]))
+				}
+				return dirValue(x.Call.Args[0], d+1)
+			case "path/filepath.Clean", "path.Clean", "path/filepath.ToSlash", "path/filepath.FromSlash":
+				return dirValue(x.Call.Args[0], d+1)
+			}
+			if m.InModule(sc) && sc.Blocks != nil && len(x.Call.Args) >= 1 {
+				// a module helper: what it returns, in terms of its arguments
+				for _, r := range m.returnedAt(sc, 0) {
+					if w := dirValue(r, d+1); w != "" {
+						return w
+					}
+				}
+				for _, a := range x.Call.Args {
+					if _, isStr := a.Type().Underlying().(*types.Basic); isStr {
+						if w := dirValue(a, d+1); w != "" {
+							return w
+						}
+					}
+				}
+				return ""
+			}
+			return "is passed through " + name
+		}
+		return "is computed by " + valueDesc(v)
+	}
 	nDirStores := 0
+	report := func(fn *ssa.Function, at ssa.Instruction, bad string) {
+		nDirStores++
+		key := fmt.Sprintf("%s|the template directory is kept as given, less the slashes at its ends", fnKey(fn))
+		if bad == "" {
+			s.OK(rule, key, m.InstrPos(at), "the stored value is the option itself passed only through slash trimming / path cleaning")
+		} else {
+			s.Violation(rule, key, m.InstrPos(at), "%s stores a template directory that %s: two spellings of different directories can become the same one, or the directory the caller named is not the one that is loaded", fnKey(fn), bad)
+		}
+	}
 	for _, fn := range m.ModFns {
-		if fn.Blocks == nil || shortPkg(fnPkgPath(fn)) != "textwire" {
+		if fn.Blocks == nil || isUserPkg(fnPkgPath(fn)) {
 			continue
 		}
 		for _, b := range fn.Blocks {
 			for _, in := range b.Instrs {
-				st, isSt := in.(*ssa.Store)
-				if !isSt {
-					continue
-				}
-				fa, isFA := st.Addr.(*ssa.FieldAddr)
-				if !isFA || fieldName(fa.X.Type(), fa.Field) != "TemplateDir" || !strings.HasSuffix(derefTypeString(fa.X.Type()), "config.Config") {
-					continue
-				}
-				if g, isG := derefGlobal(fa.X); !isG || canonGlobalName(g) != "userConfig" {
-					if _, direct := fa.X.(*ssa.Global); !direct {
-						if ld, isLd := fa.X.(*ssa.UnOp); !isLd || ld.Op != token.MUL {
+				switch x := in.(type) {
+				case *ssa.Store:
+					fa, isFA := x.Addr.(*ssa.FieldAddr)
+					if !isFA || fieldName(fa.X.Type(), fa.Field) != "TemplateDir" || !strings.HasSuffix(derefTypeString(fa.X.Type()), "config.Config") {
+						continue
+					}
+					report(fn, x, dirValue(x.Val, 0))
+				case *ssa.Call:
+					// the address of the setting handed to a helper that fills it from its other arguments
+					sc := x.Call.StaticCallee()
+					if sc == nil || !m.InModule(sc) {
+						continue
+					}
+					for _, a := range x.Call.Args {
+						fa, isFA := a.(*ssa.FieldAddr)
+						if !isFA || fieldName(fa.X.Type(), fa.Field) != "TemplateDir" || !strings.HasSuffix(derefTypeString(fa.X.Type()), "config.Config") {
 							continue
 						}
-					}
-				}
-				nDirStores++
-				key := fmt.Sprintf("%s|the template directory is kept as given, less the slashes at its ends", fnKey(fn))
-				v := st.Val
-				bad := ""
-				for d := 0; d < 6 && bad == ""; d++ {
-					if _, isK := v.(*ssa.Const); isK {
-						break // a default
-					}
-					if strings.HasSuffix(fieldPathOf(v), ".TemplateDir") {
-						break // the caller's option
-					}
-					c, isC := v.(*ssa.Call)
-					if !isC || c.Call.StaticCallee() == nil || len(c.Call.Args) == 0 {
-						bad = "is computed by " + valueDesc(v)
-						break
-					}
-					name := fnFullName(c.Call.StaticCallee())
-					switch name {
-					case "strings.Trim", "strings.TrimRight", "strings.TrimLeft", "strings.TrimSuffix", "strings.TrimPrefix":
-						k, isK := c.Call.Args[1].(*ssa.Const)
-						cut := ""
-						if isK && k.Value != nil && k.Value.Kind() == constant.String {
-							cut = constant.StringVal(k.Value)
+						bad := ""
+						for _, o := range x.Call.Args {
+							if o == a || bad != "" {
+								continue
+							}
+							switch ov := o.(type) {
+							case *ssa.Function:
+								for _, r := range m.returnedAt(ov, 0) {
+									if w := dirValue(r, 0); w != "" {
+										bad = w
+									}
+								}
+							case *ssa.MakeClosure:
+								if f, ok := ov.Fn.(*ssa.Function); ok {
+									for _, r := range m.returnedAt(f, 0) {
+										if w := dirValue(r, 0); w != "" {
+											bad = w
+										}
+									}
+								}
+							default:
+								if bt, isB := o.Type().Underlying().(*types.Basic); isB && bt.Info()&types.IsString != 0 {
+									bad = dirValue(o, 0)
+								}
+							}
 						}
-						if !isK || cut == "" || strings.Trim(cut, "/") != "" || (name == "strings.TrimPrefix" && false) {
-							bad = fmt.Sprintf("is passed through %s with %s: only slashes may be removed (a cutset is a set of characters: \"./\" also eats the dots of \"../x\" and \".hidden\")", name, valueDesc(c.Call.Args[1]))
-						}
-						if name == "strings.TrimLeft" || name == "strings.TrimPrefix" || name == "strings.Trim" {
-							// a leading slash is removed by the code as it stands (Trim): kept as is
-						}
-					case "path/filepath.Clean", "path.Clean", "path/filepath.ToSlash", "path/filepath.FromSlash":
-					default:
-						bad = "is passed through " + name
+						report(fn, x, bad)
 					}
-					v = c.Call.Args[0]
-				}
-				if bad == "" {
-					s.OK(rule, key, m.InstrPos(st), "the stored value is the option itself passed only through slash trimming / path cleaning")
-				} else {
-					s.Violation(rule, key, m.InstrPos(st), "%s stores a template directory that %s: two spellings of different directories can become the same one, or the directory the caller named is not the one that is loaded", fnKey(fn), bad)
 				}
 			}
 		}
 	}
 	if nDirStores == 0 {
-		s.Undecided(rule, "textwire|stores of the template directory", "-", "no store into the configuration's TemplateDir found")
+		s.Undecided(rule, "textwire|stores of the template directory", "-", "no store into a configuration's TemplateDir found")
 	}
 	// EvaluateFile == EvaluateString(content)
 	ef := m.PkgFunc("textwire", "EvaluateFile")
